@@ -46,7 +46,7 @@ import lightworks.tomography.mappings as _maps
 import lightworks.tomography.utils as _tutils
 
 import c15
-from c15 import PCTOR, PNAMES, SQ2, build_base, cmat, dual_rail, snapshot, snap_equal
+from c15 import PCTOR, PNAMES, SQ2, apply_gates, build_base, cmat, dual_rail, snapshot, snap_equal
 
 SCALE = 10**15
 INAMES = ["X+", "X-", "Y+", "Y-", "Z+", "Z-"]
@@ -179,6 +179,7 @@ class C16:
         def trio(n, gates, kinds=("li", "mle", "gf"), perm=False):
             for kd in kinds:
                 c = dict(kind=kd, n=n, gates=gates, perm=rng.randrange(10**6) if perm else None)
+                c["twice"] = len(gates) >= 2 or (len(cases) % 4 == 1)
                 if kd == "gf":
                     c["target"] = "same"
                 cases.append(c)
@@ -200,7 +201,7 @@ class C16:
         for _ in range(6 if quick else 80):
             g = rng.choice(one)
             tgt = rng.choice(["rand", "gates", "rand"])
-            c = dict(kind="gf", n=1, gates=g, perm=None, target=tgt, tseed=rng.randrange(10**9))
+            c = dict(kind="gf", n=1, gates=g, perm=None, target=tgt, tseed=rng.randrange(10**9), twice=(rng.random() < 0.4))
             if tgt == "gates":
                 c["tgates"] = rng.choice(one)
             cases.append(c)
@@ -308,7 +309,11 @@ class C16:
 
     def _impl_tomo(self, c):
         k, n = c["kind"], c["n"]
-        base = build_base(n, c["gates"])
+        # twice: the tomography object first processes a PREFIX of the base circuit; the base circuit is then
+        # extended in place and process() is called again - the second result must describe the circuit as it
+        # is then (no measurement data, circuits or settings may survive from the first call)
+        twice = bool(c.get("twice")) and len(c["gates"]) >= 1 and not c.get("bad") and (k != "mle" or n == 1)
+        base = build_base(n, c["gates"][:-1] if twice else c["gates"])
         before = snapshot(base)
         v = qubit_unitary(base, n)
         aux = {"problems": [], "V": cmat(v) if v is not None else None}
@@ -320,7 +325,16 @@ class C16:
         inputs_all = [",".join(t) for t in itertools.product(MLE_INPUTS if k == "mle" else LI_INPUTS, repeat=n)]
         patch = _Patch(c.get("perm"))
 
+        phase = {"first": twice}
+
         def experiment(circuits, inputs):
+            if phase["first"]:
+                res0 = []
+                for circ, ins in zip(circuits, inputs):
+                    amps0 = np.array(Simulator(circ).simulate(ins, [State(o) for o in outs]).array)[0]
+                    p0 = np.abs(amps0) ** 2
+                    res0.append({State(list(o)): float(x) for o, x in zip(outs, p0 / p0.sum())})
+                return res0
             out = []
             req = patch.req or []
             for idx, (circ, ins) in enumerate(zip(circuits, inputs)):
@@ -362,6 +376,18 @@ class C16:
         with patch, warnings.catch_warnings():
             warnings.simplefilter("ignore")
             tomo = CLASSES[k](n, base, experiment)
+            if twice:
+                try:
+                    tomo.process(*([np.identity(2**n)] if k == "gf" else []))
+                except Exception:  # noqa: BLE001   (the first call's outcome is not what this case observes)
+                    pass
+                phase["first"] = False
+                apply_gates(base, c["gates"][-1:])
+                before = snapshot(base)
+                v = qubit_unitary(base, n)
+                aux["V"] = cmat(v) if v is not None else None
+                her = {kk for kk, _ in before[4]}
+                vis = [m for m in range(before[0]) if m not in her]
             try:
                 if k == "gf":
                     u = self._target(c, v)
